@@ -27,7 +27,7 @@ def check(rep, F, rule='POSITION'):
         pe = TB.PathEnum(F, fn, max_paths=4000, cut_loops=True)
         paths = pe.run()
     except Undecided as e:
-        rep.undecided(rule, fn.key + ':positions', str(e), fn.where())
+        rep.undecided_anchor(rule, fn.key + ':positions', str(e), fn.where())
         return 0
     scale = N.lin(TB.T('field', TB.T('param', 1), 'scale'))
     new_scale = N.lin(TB.T('param', 2))
